@@ -107,6 +107,8 @@ package keeper
 //@   ensures forall d: str :: {$supply[d]} d != params.MintDenom ==> $supply[d] == old($supply[d])
 //@   ensures err == nil ==> J(params, $minterState, $blockTime) && $minterState.SequenceId >= old($minterState.SequenceId)
 //@   ensures err == nil ==> $minterState.LastMintBlockTime == $blockTime
+//@   // after the block the current period is never one whose end has passed (C19: no stale inflation)
+//@   ensures err == nil ==> (cur(params, $minterState.SequenceId).EndTime == nil || $blockTime < *cur(params, $minterState.SequenceId).EndTime)
 //@   // THE property: after the block, the amount minted in the current period is exactly the integer part of its schedule
 //@   ensures err == nil ==> $minterState.AmountMinted == truncInt(schedNow(params, $minterState, $blockTime))
 //@   ensures forall j :: {$histMinted[j]} j < old($minterState.SequenceId) ==>
@@ -146,6 +148,7 @@ package keeper
 //@   ensures !res.IsNil() && res >= 0
 //@   ensures err == nil && $blockTime >= $minterParams.StartTime && old($minterState.LastMintBlockTime) < $blockTime ==>
 //@     $minterState.AmountMinted == truncInt(schedNow($minterParams, $minterState, $blockTime)) && $minterState.LastMintBlockTime == $blockTime
+//@     && (cur($minterParams, $minterState.SequenceId).EndTime == nil || $blockTime < *cur($minterParams, $minterState.SequenceId).EndTime)
 //@   ensures err == nil ==> $supply[$minterParams.MintDenom] == old($supply[$minterParams.MintDenom]) + res
 //@   ensures forall d: str :: {$supply[d]} d != $minterParams.MintDenom ==> $supply[d] == old($supply[d])
 //@   ensures err == nil ==> Jstore($minterParams, $minterState)
@@ -158,3 +161,19 @@ package keeper
 //@       $minterState.SequenceId == st0.SequenceId && $minterState.AmountMinted == truncInt(x)
 //@       && $minterState.RemainderToMint == x - truncInt(x) * P && res == truncInt(x) - st0.AmountMinted
 //@   prop C02 C01
+//@
+//@ // ---- inflation (C19) ----
+//@ func (k Keeper) GetCurrentInflation(ctx) (res, err)
+//@   requires validMinters($minterParams.Minters, $minterParams.StartTime) && timeOK($blockTime)
+//@   requires !$minterState.AmountMinted.IsNil()
+//@   ensures !hasMinter($minterParams, $minterState.SequenceId) ==> err != nil
+//@   ensures hasMinter($minterParams, $minterState.SequenceId) ==> err == nil && !res.IsNil()
+//@     && res == infl(cur($minterParams, $minterState.SequenceId), startOf($minterParams, $minterState.SequenceId), $blockTime, $supply[$minterParams.MintDenom])
+//@   prop C19
+//@ func (k Keeper) Inflation(goCtx, req) (resp, err)
+//@   requires validMinters($minterParams.Minters, $minterParams.StartTime) && timeOK($blockTime)
+//@   requires !$minterState.AmountMinted.IsNil()
+//@   ensures req != nil && hasMinter($minterParams, $minterState.SequenceId) ==> err == nil && resp != nil && !resp.Inflation.IsNil()
+//@     && resp.Inflation == infl(cur($minterParams, $minterState.SequenceId), startOf($minterParams, $minterState.SequenceId), $blockTime, $supply[$minterParams.MintDenom])
+//@   ensures req == nil || !hasMinter($minterParams, $minterState.SequenceId) ==> err != nil
+//@   prop C19
